@@ -78,69 +78,74 @@ Proof.
     rewrite lenN_app, lenN_word. reflexivity.
 Qed.
 
-Section Field.
-  (** the tuple encoding split around the field under consideration *)
-  Variables (HD HR TD TR : bytes) (v : fval).
-  Let off := lenN HD + 32 + lenN HR + lenN TD.
-  Let T := HD ++ head_of v off ++ HR ++ TD ++ tail_of v ++ TR.
-  Variable i : N.
-  Hypothesis Hi : lenN HD = i * 32.
-  Hypothesis Hbound : lenN T < two63.
+(** the tuple encoding split around the field under consideration *)
+Definition foff (HD HR TD : bytes) : N := lenN HD + 32 + lenN HR + lenN TD.
+Definition fT (HD HR TD TR : bytes) (v : fval) : bytes :=
+  HD ++ head_of v (foff HD HR TD) ++ HR ++ TD ++ tail_of v ++ TR.
 
-  Lemma field_word : slice T (i * 32) 32 = head_of v off.
-  Proof.
-    unfold T. apply slice_at'; [symmetry; exact Hi|].
-    unfold lenN. rewrite head_of_length. reflexivity.
-  Qed.
+Lemma field_word HD HR TD TR v i : lenN HD = i * 32 -> slice (fT HD HR TD TR v) (i * 32) 32 = head_of v (foff HD HR TD).
+Proof.
+  intro Hi. unfold fT. apply slice_at'; [symmetry; exact Hi|].
+  unfold lenN. rewrite head_of_length. reflexivity.
+Qed.
 
-  Lemma T_len : lenN T = lenN HD + 32 + lenN HR + lenN TD + lenN (tail_of v) + lenN TR.
-  Proof.
-    unfold T. rewrite !lenN_app. unfold lenN at 2. rewrite head_of_length.
-    change (N.of_nat 32) with 32. lia.
-  Qed.
+Lemma T_len HD HR TD TR v :
+  lenN (fT HD HR TD TR v) = lenN HD + 32 + lenN HR + lenN TD + lenN (tail_of v) + lenN TR.
+Proof.
+  unfold fT. rewrite !lenN_app. unfold lenN at 2. rewrite head_of_length.
+  change (N.of_nat 32) with 32. lia.
+Qed.
 
-  Lemma T_dyn : T = (HD ++ head_of v off ++ HR ++ TD) ++ tail_of v ++ TR /\ lenN (HD ++ head_of v off ++ HR ++ TD) = off.
-  Proof.
-    split; [unfold T; rewrite <- !app_assoc; reflexivity|].
-    rewrite !lenN_app. unfold lenN at 2. rewrite head_of_length. unfold off. change (N.of_nat 32) with 32. lia.
-  Qed.
+Lemma T_dyn HD HR TD TR v :
+  fT HD HR TD TR v = (HD ++ head_of v (foff HD HR TD) ++ HR ++ TD) ++ tail_of v ++ TR /\
+  lenN (HD ++ head_of v (foff HD HR TD) ++ HR ++ TD) = foff HD HR TD.
+Proof.
+  split; [unfold fT; rewrite <- !app_assoc; reflexivity|].
+  rewrite !lenN_app. unfold lenN at 2. rewrite head_of_length. unfold foff. change (N.of_nat 32) with 32. lia.
+Qed.
 
-  Lemma dec_dyn_ok (t : aty) s (mk : bytes -> fval) :
-    tail_of v = enc_dyn s -> head_of v off = word off ->
-    (let oe := be_val (slice T (i * 32) 32) + 32 in
-      if lenN T <? oe then Err else
-      if two63 <=? oe then Err else
-      let ln := be_val (slice T (oe - 32) 32) in
-      let total := oe + ln in
-      if two63 <=? total then Err else
-      if lenN T <? total then Err else
-      Ok (mk (slice T oe ln))) = Ok (mk s).
-  Proof.
-    intros Et Eh. pose proof T_len as TL. rewrite Et in TL. pose proof (lenN_enc_dyn s) as LE.
-    destruct T_dyn as [TD1 TD2]. rewrite Et in TD1.
-    destruct (dyn_slices _ s TR off (eq_sym TD2)) as [S1 S2]. rewrite <- TD1 in S1, S2.
-    cbv zeta. rewrite field_word, Eh. rewrite be_val_word by lia.
-    replace (lenN T <? off + 32) with false by (symmetry; apply N.ltb_ge; lia).
-    replace (two63 <=? off + 32) with false by (symmetry; apply N.leb_gt; lia).
-    replace (off + 32 - 32) with off by lia.
-    rewrite S1. rewrite be_val_word by lia.
-    replace (two63 <=? off + 32 + lenN s) with false by (symmetry; apply N.leb_gt; lia).
-    replace (lenN T <? off + 32 + lenN s) with false by (symmetry; apply N.ltb_ge; lia).
-    rewrite S2. reflexivity.
-  Qed.
+Lemma dec_dyn_ok HD HR TD TR v i s (mk : bytes -> fval) :
+  lenN HD = i * 32 -> lenN (fT HD HR TD TR v) < two63 ->
+  tail_of v = enc_dyn s -> head_of v (foff HD HR TD) = word (foff HD HR TD) ->
+  (let T := fT HD HR TD TR v in
+   let oe := be_val (slice T (i * 32) 32) + 32 in
+    if lenN T <? oe then Err else
+    if two63 <=? oe then Err else
+    let ln := be_val (slice T (oe - 32) 32) in
+    let total := oe + ln in
+    if two63 <=? total then Err else
+    if lenN T <? total then Err else
+    Ok (mk (slice T oe ln))) = Ok (mk s).
+Proof.
+  intros Hi Hb Et Eh. pose proof (T_len HD HR TD TR v) as TL. rewrite Et in TL. pose proof (lenN_enc_dyn s) as LE.
+  destruct (T_dyn HD HR TD TR v) as [TD1 TD2]. rewrite Et in TD1.
+  destruct (dyn_slices _ s TR (foff HD HR TD) (eq_sym TD2)) as [S1 S2]. rewrite <- TD1 in S1, S2.
+  cbv zeta. rewrite (field_word _ _ _ _ _ _ Hi), Eh.
+  assert (Eo : foff HD HR TD = lenN HD + 32 + lenN HR + lenN TD) by reflexivity.
+  set (T := fT HD HR TD TR v) in *. set (off := foff HD HR TD) in *.
+  rewrite be_val_word by lia.
+  replace (lenN T <? off + 32) with false by (symmetry; apply N.ltb_ge; lia).
+  replace (two63 <=? off + 32) with false by (symmetry; apply N.leb_gt; lia).
+  replace (off + 32 - 32) with off by lia.
+  rewrite S1. rewrite be_val_word by lia.
+  replace (two63 <=? off + 32 + lenN s) with false by (symmetry; apply N.leb_gt; lia).
+  replace (lenN T <? off + 32 + lenN s) with false by (symmetry; apply N.ltb_ge; lia).
+  rewrite S2. reflexivity.
+Qed.
 
-  Lemma dec_field_ok t : typed_val t v = true -> dec_field t i T = Ok v.
-  Proof.
-    intro Ty. unfold dec_field. pose proof T_len as TL.
-    replace (lenN T <? i * 32 + 32) with false by (symmetry; apply N.ltb_ge; lia).
-    destruct t; destruct v as [n|s|s] eqn:Ev; cbn in Ty; try discriminate.
-    - (* uint64 *)
-      rewrite field_word. cbn [head_of].
-      apply N.ltb_lt in Ty. rewrite (be_val_word64 n Ty). rewrite N.mod_small by exact Ty. reflexivity.
-    - apply (dec_dyn_ok TStr s FS); reflexivity.
-    - apply (dec_dyn_ok TBytes s FB); reflexivity.
-  Qed.
-End Field.
+Lemma dec_field_ok HD HR TD TR v i t :
+  lenN HD = i * 32 -> lenN (fT HD HR TD TR v) < two63 -> typed_val t v = true ->
+  dec_field t i (fT HD HR TD TR v) = Ok v.
+Proof.
+  intros Hi Hb Ty. unfold dec_field. pose proof (T_len HD HR TD TR v) as TL.
+  replace (lenN (fT HD HR TD TR v) <? i * 32 + 32) with false by (symmetry; apply N.ltb_ge; lia).
+  destruct t; destruct v as [n|s|s]; cbn in Ty; try discriminate.
+  - (* uint64 *)
+    rewrite (field_word _ _ _ _ _ _ Hi). cbn [head_of].
+    apply N.ltb_lt in Ty. rewrite (be_val_word64 n Ty). rewrite N.mod_small by exact Ty. reflexivity.
+  - apply (dec_dyn_ok HD HR TD TR (FS s) i s FS); auto.
+  - apply (dec_dyn_ok HD HR TD TR (FB s) i s FB); auto.
+Qed.
 
 (** * All fields: accumulator lemma over (done, todo) *)
 
@@ -153,24 +158,21 @@ Proof.
   - destruct ts; [reflexivity | discriminate].
   - destruct ts as [|t ts]; [discriminate|]. cbn in Ty. apply andb_true_iff in Ty as [Tv Tr].
     cbn [dec_fields].
-    assert (S : enc_tuple all =
-                heads done (32 * N.of_nat (length all)) ++
-                head_of v (lenN (heads done (32 * N.of_nat (length all))) + 32 + lenN (heads r (32 * N.of_nat (length all) + lenN (tails done) + lenN (tail_of v))) + lenN (tails done)) ++
-                heads r (32 * N.of_nat (length all) + lenN (tails done) + lenN (tail_of v)) ++
-                tails done ++ tail_of v ++ tails r).
-    { unfold enc_tuple. subst all. rewrite heads_app, tails_app. cbn [heads].
+    set (H := 32 * N.of_nat (length all)).
+    set (HD := heads done H). set (HR := heads r (H + lenN (tails done) + lenN (tail_of v))).
+    set (TD := tails done). set (TR := tails r).
+    assert (S : enc_tuple all = fT HD HR TD TR v).
+    { unfold enc_tuple, fT, foff. fold H. subst all. rewrite heads_app, tails_app. cbn [heads].
       change (tails (v :: r)) with (tail_of v ++ tails r).
-      rewrite <- !app_assoc. do 2 f_equal.
-      - rewrite !heads_length. f_equal.
-        rewrite app_length. cbn [length]. lia.
-      - reflexivity. }
-    rewrite S at 1.
-    rewrite (dec_field_ok _ _ _ _ v (N.of_nat (length done))).
+      rewrite <- !app_assoc. fold HD TD TR HR. do 2 f_equal.
+      f_equal. unfold HD, HR. rewrite !heads_length. unfold H. rewrite app_length. cbn [length]. lia. }
+    rewrite S.
+    rewrite dec_field_ok.
     + cbn [obind]. rewrite <- S.
       replace (N.of_nat (length done) + 1) with (N.of_nat (length (done ++ [v]))) by (rewrite app_length; cbn [length]; lia).
       rewrite (IH all (done ++ [v]) ts); [reflexivity | | exact Tr | exact B].
       subst all. rewrite <- app_assoc. reflexivity.
-    + rewrite heads_length. lia.
+    + unfold HD. rewrite heads_length. lia.
     + rewrite <- S. exact B.
     + exact Tv.
 Qed.
